@@ -357,7 +357,7 @@ func cmdPullOps(args []string) error {
 						single(srv.NackSingle("/r", op.L, op.Dead, op.Reason, time.Duration(op.Delay)))
 					}
 				case 6:
-					op = jpop{T: "extend", L: someLease(), By: pick(r, []int64{int64(10 * time.Second), int64(1250 * time.Millisecond), int64(time.Second), 0, -int64(time.Second)})}
+					op = jpop{T: "extend", L: someLease(), By: pick(r, []int64{int64(10 * time.Second), int64(1250 * time.Millisecond), int64(time.Second), int64(500 * time.Millisecond), int64(999 * time.Millisecond), 1, 0, -int64(time.Second)})}
 					via = pick(r, []string{"ops", "http", "grpc"})
 					if op.By <= 0 {
 						via = "ops"
